@@ -246,8 +246,9 @@ class Facts:
     def mandatory_sdist(self, f: str) -> bool:
         return f == "pyproject.toml" or f in self.legal or f in self.scripts or f in [Path(r).as_posix() for r in self.readmes]
 
-    def package_files(self, fmt: str) -> set[str] | None:
-        """files of the declared packages for this format (before exclusion); None = declared packages unusable"""
+    def package_files(self, fmt: str) -> dict[str, str] | None:
+        """files the declared `packages` patterns select for this format (before exclusion), evaluated with pathlib on the
+        real tree, each with the reason it is selected; None = declared packages unusable"""
         pk = [p for p in (self.spec.get("packages") or []) if fmt in fmts_of(p, ["sdist", "wheel"])]
         if not pk:
             mod = c09_gen.module_name(self.spec["name"])
@@ -257,17 +258,20 @@ class Facts:
                     break
             else:
                 return None
-        out: set[str] = set()
+        out: dict[str, str] = {}
         for p in pk:
+            where = f"packages pattern {p['include']!r}" + (f" (from {p['from']!r})" if p.get("from") else "")
             els = py_glob(self.root, p.get("from", "."), p["include"])
             if not els:
                 return None
-            for e in els:
+            for e in sorted(els):
                 if e in self.files:
-                    out.add(e)
+                    out.setdefault(e, f"{where} matches the file")
                 else:
                     pre = "" if e == "." else e + "/"
-                    out |= {f for f in self.files if f.startswith(pre)}
+                    for f in self.files:
+                        if f.startswith(pre):
+                            out.setdefault(f, f"{where} matches the directory {e!r} above it")
         return out
 
 
@@ -318,7 +322,8 @@ def oracle_format(ctx: core.Ctx, spec: dict[str, Any], facts: Facts, fmt: str, s
             if is_bytecode(f) or facts.hidden(f):
                 continue
             if f not in srcs:
-                ctx.violate(f"{fmt}:package-file-missing", f"package file {f!r} is neither excluded nor ignored but missing from the {fmt}", wit)
+                ctx.violate(f"{fmt}:package-file-missing",
+                            f"{f!r} is missing from the {fmt} although {pf[f]} and it is neither excluded, VCS-ignored nor bytecode", wit)
 
 
 # ------------------------------------------------------------------------------------------------
@@ -427,6 +432,15 @@ def run_project(ctx: core.Ctx, spec: dict[str, Any], stream: str) -> None:
                  sample={"packages": spec.get("packages"), "include": spec.get("include"), "exclude": spec.get("exclude"),
                          "git": spec.get("git"), "files": len(spec["files"])} if ok_both and (spec.get("include") or spec.get("exclude")) else None)
         facts = Facts(spec, root, truth)
+        for p in spec.get("packages") or []:
+            els = py_glob(root, p.get("from", "."), p["include"]) or set()
+            nonempty = [e for e in els if e in facts.dirs and any(f.startswith(e + "/") for f in facts.files)]
+            if len(els) > 1 and nonempty:
+                ctx.count("packages:multi-match-glob-with-nonempty-directory")
+            elif len(els) == 1 and nonempty:
+                ctx.count("packages:single-directory")
+            elif els:
+                ctx.count("packages:files-only")
         if bs["ok"]:
             names = sdist_names(bs["path"])
             real_m = ["ok", "\n".join(n for n, _ in names)]
@@ -527,8 +541,8 @@ def _some_package_emptied(spec: dict[str, Any], facts: Facts, s_src: set[str]) -
     """a package (declared for the wheel) none of whose .py files reached the sdist: PackageInclude rejects what is left"""
     pk = [p for p in (spec.get("packages") or []) if "wheel" in fmts_of(p, ["sdist", "wheel"])]
     if not pk:
-        pf = facts.package_files("wheel") or set()
-        return not any(f in s_src and f.endswith(".py") for f in pf)
+        pf = set(facts.package_files("wheel") or {})
+        return not any(f in s_src and Path(f).suffix == ".py" for f in pf)
     for p in pk:
         els = py_glob(facts.root, p.get("from", "."), p["include"]) or set()
         fl: set[str] = set()
@@ -537,7 +551,7 @@ def _some_package_emptied(spec: dict[str, Any], facts: Facts, s_src: set[str]) -
                 fl.add(e)
             else:
                 fl |= {f for f in facts.files if f.startswith(e + "/")}
-        if not any(f in s_src and f.endswith(".py") for f in fl):
+        if not any(f in s_src and Path(f).suffix == ".py" for f in fl):
             return True
     return False
 
